@@ -190,3 +190,37 @@ fn clean_after_in_order_ack_history_is_send_order() {
         }
     }
 }
+
+/// `new` establishes the representation invariant: tables sized for every id the wire can carry
+// @native props=C10,C07,C02 tier=quick fn=MqttState::new
+#[test]
+fn new_state_is_well_formed() {
+    let name = "rumqttc::MqttState::new#tables_sized_and_empty";
+    let mut cases = 0;
+    let mut fail: Option<String> = None;
+    for n in [1u16, 2, 3, 100, 65535] {
+        for manual in [false, true] {
+            cases += 1;
+            let st = MqttState::new(n, manual);
+            let ok = st.outgoing_pub.len() == n as usize + 1
+                && st.outgoing_pub.iter().all(|s| s.is_none())
+                && st.outgoing_rel.len() == n as usize + 1
+                && st.outgoing_rel.count_ones(..) == 0
+                // every u16 packet id of an inbound QoS 2 publish must be representable (no panic on insert)
+                && st.incoming_pub.len() == u16::MAX as usize + 1
+                && st.incoming_pub.count_ones(..) == 0
+                && st.inflight == 0 && st.last_pkid == 0 && st.collision.is_none() && !st.await_pingresp && st.manual_acks == manual && st.events.is_empty();
+            if !ok {
+                fail = Some(format!("input=[new({}, {})] detail=[tables: outgoing_pub {}, outgoing_rel {}, incoming_pub {} bits]", n, manual, st.outgoing_pub.len(), st.outgoing_rel.len(), st.incoming_pub.len()));
+                break;
+            }
+        }
+    }
+    match fail {
+        None => println!("VERIF-OBLIGATION {} props=C10,C07,C02 bound=\"max_inflight in 1,2,3,100,65535 x manual_acks\" cases={} ok", name, cases),
+        Some(f) => {
+            println!("VERIF-FAIL {} props=C10,C07,C02 {}", name, f);
+            panic!("{}", f);
+        }
+    }
+}
